@@ -9,6 +9,8 @@ import Rustemo.Driver.Front
 import Rustemo.Driver.Ast
 import Rustemo.Driver.Glr
 import Rustemo.Driver.LayoutRT
+import Rustemo.Driver.Table
+import Rustemo.Model.CertTerm
 import Rustemo.Model.Canon
 import Rustemo.Model.CertComplete
 import Rustemo.Model.Core
@@ -73,6 +75,8 @@ def handle (st : DState) (line : String) : DState × String :=
       let b := fun (x : Bool) => if x then "1" else "0"
       (st, s!"first={b (Cert.firstOk g c)} closure={b (Cert.closureOk g c t)} trans={b (Cert.transOk g t)} reduce={b (Cert.reduceOk g t)} det={b (Cert.detOk t)} grammar={b (Cert.grammarOk g t)}")
     | ["noshiftstop"] => (st, if Cert.noShiftStop st.dump.table then "1" else "0")
+    | ["terminating"] => (st, if Cert.terminating st.dump.grammar st.dump.table then "1" else "0")
+    | ["termbound", n] => (st, toString (Cert.termBound st.dump.grammar st.dump.table (natOf n)))
     | ["productive"] => (st, if Cert.productive st.dump.grammar then "1" else "0")
     | ["viable"] =>
       let g := st.dump.grammar
@@ -105,6 +109,7 @@ def handle (st : DState) (line : String) : DState × String :=
   | "ast" => (st, Rustemo.Ast.handleAst rest)
   | "glr" => (st, Rustemo.Glr.handleGlr st.dump rest)
   | "layoutcert" => (st, Rustemo.LayoutRT.handleLayoutCert st.dump rest)
+  | "table" => (st, Rustemo.Table.handleTable st.dump rest)
   | "charenv" =>
     -- hypothesis `CharEnv` of the byte/token simulation for one input: `charenv <input-hex> #<matrix>`
     match rest.splitOn " #" with
@@ -122,13 +127,13 @@ def handle (st : DState) (line : String) : DState × String :=
           | [m, sd] => some (natOf m, natOf sd)
           | _ => none
         let env := { envOf st.dump input (parseMatrix mat) with custom := custom }
-        let fuel := 2000 + 200 * input.length
+        let fuel := if Cert.terminating st.dump.grammar st.dump.table then max (2000 + 200 * input.length) (Cert.termBound st.dump.grammar st.dump.table input.length) else 2000 + 200 * input.length
         let (_, o) := parse env (pp == "1") fuel
         (st, renderOutcome o)
       | [pp, inp] =>
         let input := unhexBytes inp
         let env := envOf st.dump input (parseMatrix mat)
-        let fuel := 2000 + 200 * input.length
+        let fuel := if Cert.terminating st.dump.grammar st.dump.table then max (2000 + 200 * input.length) (Cert.termBound st.dump.grammar st.dump.table input.length) else 2000 + 200 * input.length
         let (_, o) := parse env (pp == "1") fuel
         (st, renderOutcome o)
       | _ => (st, "bad-request")
